@@ -1,3 +1,14 @@
-"""Regenerate lean/Cog/Gen/*.lean from /repo (fact extractors). Filled in per property."""
-import sys
-sys.exit(0)
+"""Regenerate lean/Cog/Gen/*.lean from /repo (fact extractors). One call per property module."""
+import importlib, os, sys
+sys.path.insert(0, os.path.dirname(os.path.dirname(os.path.abspath(__file__))))
+MODULES = []  # e.g. "verifkit.gen_c18"  (each exposes regen() -> (ok, detail))
+import glob
+for f in sorted(glob.glob(os.path.join(os.path.dirname(os.path.dirname(os.path.abspath(__file__))), "verifkit", "gen_*.py"))):
+    MODULES.append("verifkit." + os.path.basename(f)[:-3])
+rc = 0
+for m in MODULES:
+    ok, detail = importlib.import_module(m).regen()
+    print(m, "ok" if ok else "FAILED", detail[:500])
+    if not ok:
+        rc = 1
+sys.exit(rc)
